@@ -88,7 +88,9 @@ func oracleStorageRouting(c *Ctx, id int, k *KCall, r *KResult, body string) {
 		}
 		// S = k·Q^m + dead within the solver tolerance, for zero bias and positive outflow: the reported storage must be
 		// the storage of an index flow q* with |q* − Q|·dt ≤ massBalanceLimit (the residual the solver accepts).
-		if bias == 0 && q > 0 {
+		// (skipped when the volumes of the step exceed 1e11 m³: there the rounding error of the solver's own mass-balance
+		// residual, ≥ 4·2⁻⁵³·1e11 ≈ 4e-5, is no longer small against its tolerance of 1e-3 m³)
+		if bias == 0 && q > 0 && math.Max(math.Abs(prev), q*dt) <= 1e11 {
 			// Admissible: |S − (k·Q^m + dead)| ≤ massBalanceLimit (the tolerance is a volume, m³), or S is the storage of an
 			// index flow q* with |q* − Q|·dt ≤ massBalanceLimit (the residual the solver accepts, expressed in flow).
 			lim := srMassBalanceLimit * (1 + 1e-6)
